@@ -253,6 +253,22 @@ fn long_groups(ctx: &mut Ctx, cfg: &'static dyn Config) {
             ctx.sweep_case("long-groups", cfg, &Input::History { lines }, check);
         }
     }
+    // a group kept waiting while hundreds of other lines pass: any per-line counter must cope
+    for filler in 0..4usize {
+        for count in [70usize, 256, 300, 600] {
+            let mut lines = vec![Line::new(build::line(2, 1, Some(4), b"A", b"15", 0), false)];
+            for i in 0..count {
+                lines.push(match filler {
+                    0 => Line::new(build::line(1, 1, None, b"B", b"177KQJ5000G?tO`K>RA1wUbN0TKH", 0), i % 2 == 0),
+                    1 => Line::new(b"!AIVDM,1,1,,A,15,0*00".to_vec(), false),
+                    2 => Line::new(build::line(2, 2, Some(5), b"A", b"5", 0), false),
+                    _ => Line::new(b"$GPGGA,123519,4807.038,N,01131.000,E,1,08,0.9,545.4,M,46.9,M,,*47".to_vec(), false),
+                });
+            }
+            lines.push(Line::new(build::line(2, 2, Some(4), b"A", b"55", 0), false));
+            ctx.sweep_case("long-groups", cfg, &Input::History { lines }, check);
+        }
+    }
     ctx.mark_exhaustive("long-groups", "complete in-order groups of 2..=12, 63, 64, 100, 127..129, 200, 253, 254 and 255 fragments (one character each), with and without a sequence id, followed by stale and restarting fragments");
 }
 
@@ -373,6 +389,23 @@ pub fn run(ctx: &mut Ctx) {
         long_groups(ctx, cfg);
     }
     huge_inputs(ctx);
+    // every pair of fields at special values (equal MMSIs, all-unavailable backgrounds ...) on all three builds
+    {
+        let mut mix = Mix::new(ctx.seed, 0xa11);
+        for (t, len, part) in crate::gen::payload::pairwise_shapes() {
+            for base in 0..3u8 {
+                let mut inputs = Vec::new();
+                crate::gen::payload::pairwise_specials(t, len, part, 1, base, &mut mix, |b| inputs.push(b));
+                for b in inputs {
+                    let input = Input::Payload { bytes: b };
+                    for cfg in configs() {
+                        ctx.sweep_case("pairwise-special-values", cfg, &input, check);
+                    }
+                }
+            }
+        }
+        ctx.mark_exhaustive("pairwise-special-values", "every pair of fields of every layout at their special values, three backgrounds, all three builds");
+    }
     let n = ctx.tier.pick(40_000, 700_000);
     for cfg in configs() {
         // (1) raw bytes
